@@ -899,3 +899,23 @@ Proof.
 Qed.
 
 End Cfg.
+
+(* ------------------------------------------------------------------ a batch rejected by its closure is a no-op *)
+Theorem failed_batch_is_noop : forall cfg s es,
+  with_editor cfg s true es = Err /\
+  cur (after s (with_editor cfg s true es)) = cur s /\ m2o (after s (with_editor cfg s true es)) = m2o s /\
+  orig (after s (with_editor cfg s true es)) = orig s.
+Proof. intros. cbn. auto. Qed.
+
+(* reachability (hence every theorem stated over Reach) is closed under with_editor, whatever the closure answers, as long
+   as an accepted batch is well formed and leaves the text non-empty; a rejected or refused batch changes nothing *)
+Theorem reach_with_editor : forall cfg o s fails es,
+  Reach cfg o s ->
+  (fails = false -> edits_ok (cur s) es = true) ->
+  (forall s', with_editor cfg s fails es = Ok s' -> cur s' <> []) ->
+  Reach cfg o (after s (with_editor cfg s fails es)).
+Proof.
+  intros cfg o s fails es HR Hok Hne. unfold with_editor in *. destruct fails; [exact HR|].
+  destruct (commit cfg s es) as [s'| |] eqn:E; cbn [after]; [|exact HR|exact HR].
+  eapply R_commit; eauto.
+Qed.
